@@ -485,6 +485,9 @@ uint32_t LessThan_deepPTRef::getVarIdFromProduct(PTRef tr) const {
 bool LessThan_deepPTRef::operator()(PTRef x_, PTRef y_) const {
     uint32_t id_x = l.isTimes(x_) ? getVarIdFromProduct(x_) : x_.x;
     uint32_t id_y = l.isTimes(y_) ? getVarIdFromProduct(y_) : y_.x;
+    // Terms over the same variable (x, 2x, 3x as arguments of = or distinct) are ordered by their own identity, so that
+    // the order of the arguments given by the caller never shows in the result
+    if (id_x == id_y) { return x_.x < y_.x; }
     return id_x < id_y;
 }
 
